@@ -88,12 +88,55 @@ func TestVerifC35ServerChild(t *testing.T) {
 	}
 }
 
+// c35Out collects the child's stdout+stderr; it is read while the child runs.
+type c35Out struct {
+	mu sync.Mutex
+	b  bytes.Buffer
+}
+
+func (o *c35Out) Write(p []byte) (int, error) {
+	o.mu.Lock()
+	defer o.mu.Unlock()
+	return o.b.Write(p)
+}
+
+func (o *c35Out) String() string {
+	o.mu.Lock()
+	defer o.mu.Unlock()
+	return o.b.String()
+}
+
 type c35Child struct {
 	cmd    *exec.Cmd
 	stdin  io.WriteCloser
 	addr   string
-	out    *bytes.Buffer
+	out    *c35Out
 	exited chan struct{}
+	// lost: the last attacker text whose connection ended abnormally while the
+	// process was still seen alive (a dying process can outlive that connection)
+	lostText, lostTransport string
+}
+
+// dying waits (bounded) for the first sign that the process is going down: its
+// exit, or the runtime's panic / fatal error banner on stderr. A handler's
+// deferred conn.Close runs before the runtime prints the panic and exits, so the
+// attacker can see its connection closed while the process still answers others.
+func (c *c35Child) dying(wait time.Duration) bool {
+	deadline := time.Now().Add(wait)
+	for {
+		select {
+		case <-c.exited:
+			return true
+		default:
+		}
+		if out := c.out.String(); strings.Contains(out, "panic: ") || strings.Contains(out, "fatal error: ") {
+			return true
+		}
+		if time.Now().After(deadline) {
+			return false
+		}
+		time.Sleep(10 * time.Millisecond)
+	}
 }
 
 func c35StartChild(dir string, n int) (*c35Child, error) {
@@ -104,7 +147,7 @@ func c35StartChild(dir string, n int) (*c35Child, error) {
 	if err != nil {
 		return nil, err
 	}
-	c := &c35Child{cmd: cmd, stdin: stdin, out: &bytes.Buffer{}, exited: make(chan struct{})}
+	c := &c35Child{cmd: cmd, stdin: stdin, out: &c35Out{}, exited: make(chan struct{})}
 	cmd.Stdout, cmd.Stderr = c.out, c.out
 	if err := cmd.Start(); err != nil {
 		return nil, err
@@ -290,7 +333,7 @@ func TestVerifC35Server(t *testing.T) {
 		mu.Unlock()
 	}()
 	starts := 0
-	n := r.N(40, 600)
+	n := r.N(40, 400)
 	for ci := 0; ci < n; ci++ {
 		rng := r.Rand(ci)
 		var text, kind string
@@ -322,10 +365,16 @@ func TestVerifC35Server(t *testing.T) {
 			err = by.alive()
 		}
 		if err != nil {
-			if child.dead(20 * time.Second) {
-				// the bystander's own SET round trip is a client query as well
-				r.Violation(c35DownClass("SET verif = 1"), fmt.Sprintf("the SQL server process died on a client's first round trip (SET verif = 1): %v", err),
-					map[string]any{"query": "SET verif = 1", "transport": "simple", "server_stderr": c35sTail(child.out.String())})
+			if child.dead(60 * time.Second) {
+				if child.lostText != "" {
+					// the process was already going down when the previous case looked at it
+					r.Violation(c35DownClass(child.lostText), fmt.Sprintf("the SQL server process died after one client sent %q (%s); the next client found it gone: %v", c35sClip(child.lostText), child.lostTransport, err),
+						map[string]any{"query": child.lostText, "query_hex": fmt.Sprintf("%x", child.lostText), "transport": child.lostTransport, "server_stderr": c35sTail(child.out.String()), "in_process_parse_panic": c35ParsePanics(child.lostText)})
+				} else {
+					// the bystander's own SET round trip is a client query as well
+					r.Violation(c35DownClass("SET verif = 1"), fmt.Sprintf("the SQL server process died on a client's first round trip (SET verif = 1): %v", err),
+						map[string]any{"query": "SET verif = 1", "transport": "simple", "server_stderr": c35sTail(child.out.String())})
+				}
 				r.Count("server_process_deaths", 1)
 			} else {
 				r.Inconclusive(fmt.Sprintf("case %d: bystander could not talk to a fresh server: %v", ci, err))
@@ -349,6 +398,11 @@ func TestVerifC35Server(t *testing.T) {
 			answer, sendErr = at.extended(text)
 		}
 		at.conn.Close()
+		if sendErr != nil && child.dying(1500*time.Millisecond) {
+			// the attacker lost its connection and the process shows signs of going down: let it finish
+			// (watchdog only; the verdict below is taken from what the bystander then observes)
+			child.dead(60 * time.Second)
+		}
 		// the property: the other client is still served, and new clients are accepted
 		errOld := by.alive()
 		var errNew error
@@ -366,8 +420,11 @@ func TestVerifC35Server(t *testing.T) {
 			r.Count("attacker_answered", 1)
 		}
 		hostile := kind != "valid"
+		if errOld == nil && errNew == nil && sendErr != nil {
+			child.lostText, child.lostTransport = text, transport
+		}
 		if errOld != nil || errNew != nil {
-			if child.dead(20 * time.Second) {
+			if child.dead(60 * time.Second) {
 				out := child.out.String()
 				cls := c35DownClass(text)
 				r.Violation(cls, fmt.Sprintf("the SQL server process died after one client sent %q (%s); bystander: %v / new connection: %v", c35sClip(text), transport, errOld, errNew),
